@@ -10,7 +10,7 @@ from mon.case import Inconclusive
 from mon.gen import mdp as G
 
 PROP = "C10"
-CASES = {"quick": 800, "thorough": 16000}
+CASES = {"quick": 800, "thorough": 80000}
 CASE_TIMEOUT = 60
 REQUIRED = ["steps_validated", "shadow_updates_compared", "episodes_observed", "learner:QLearning",
             "learner:SARSA", "learner:ExpectedSARSA", "learner:DoubleQLearning", "policy_states_checked"]
